@@ -22,6 +22,7 @@ Definition label_rule (l : str) : option rule :=
   if lbl_is l "reserved_name" then Some RReserved else if lbl_is l "dup_field" then Some RDupField
   else if lbl_is l "dup_arg" then Some RDupArg else if lbl_is l "dup_enum_value" then Some RDupEnumValue
   else if lbl_is l "dup_union_member" then Some RDupUnionMember else if lbl_is l "dup_input_field" then Some RDupInputField
+  else if lbl_is l "directive_defined_twice" then Some RDupDirective
   else if lbl_is l "unknown_type" then Some RUnknownType else if lbl_is l "input_in_output" then Some RInputInOutput
   else if lbl_is l "output_in_input" then Some ROutputInInput else if lbl_is l "not_interface" then Some RNotInterface
   else if lbl_is l "implements_self" then Some RImplementsSelf else if lbl_is l "missing_transitive" then Some RMissingTransitive
@@ -37,7 +38,7 @@ Definition label_rule (l : str) : option rule :=
 Definition rule_eqb (a b : rule) : bool :=
   match a, b with
   | RReserved, RReserved | RDupField, RDupField | RDupArg, RDupArg | RDupEnumValue, RDupEnumValue
-  | RDupUnionMember, RDupUnionMember | RDupInputField, RDupInputField | RUnknownType, RUnknownType
+  | RDupUnionMember, RDupUnionMember | RDupInputField, RDupInputField | RDupDirective, RDupDirective | RUnknownType, RUnknownType
   | RInputInOutput, RInputInOutput | ROutputInInput, ROutputInInput | RNotInterface, RNotInterface
   | RImplementsSelf, RImplementsSelf | RMissingTransitive, RMissingTransitive | RIfaceFieldMissing, RIfaceFieldMissing
   | RIfaceFieldType, RIfaceFieldType | RIfaceArgMissing, RIfaceArgMissing | RIfaceArgType, RIfaceArgType
@@ -51,20 +52,21 @@ Definition is_nil {A} (l : list A) : bool := match l with [] => true | _ => fals
 
 (** the property, read on the implementation's own output:
     - a document valid under the specification gets no diagnostic;
-    - a document (with unique type and directive names) that breaks an implemented rule gets at least one;
+    - a document (with unique type names, the built-in directives not redefined) that breaks an implemented rule
+      gets at least one;
     - the generator's label agrees with the specification side (a `valid` case is [spec_valid], a case labelled
       with a rule breaks that rule), so neither check can pass vacuously. *)
 Definition holds (c : case) : bool :=
   match c with
   | CCheck label doc errs =>
       let sv := spec_valid doc in
-      let viol := if unique_names doc then violated doc else [] in
+      let viol := if unique_type_names doc && builtins_not_redefined doc then violated doc else [] in
       (if str_eqb label (s "valid") then sv else true) &&
       (match label_rule label with Some r => existsb (rule_eqb r) viol | None => true end) &&
       (if sv then is_nil errs else true) &&
       (if is_nil viol then true else negb (is_nil errs)) &&
       (* an `implements` cycle (spec 3.7) is rejected *)
-      (if unique_names doc && negb (ok_implements_acyclic doc) then negb (is_nil errs) else true)
+      (if unique_type_names doc && negb (ok_implements_acyclic doc) then negb (is_nil errs) else true)
   | CResolve label doc failed =>
       (if str_eqb label (s "valid") then false else true) &&
       (if str_eqb label (s "dup_type") then same_kind_dup doc else true) &&
